@@ -160,7 +160,7 @@ def parse_worker_output(text, variant, res, keep_hashes=False):
     crashed = None
     last_begin = None
     restart = None
-    had_viol = False
+    had_viol = False; last_viol_idx = None
     for line in text.split("\n"):
         if not line:
             continue
@@ -179,7 +179,7 @@ def parse_worker_output(text, variant, res, keep_hashes=False):
             elif status == "abort":
                 res.aborts += 1
             elif status == "viol":
-                had_viol = True
+                had_viol = True; last_viol_idx = idx
                 res.viols.append(dict(variant=variant, index=idx, key=rest[0], detail=rest[1], step=int(rest[2]), evhash=f[3]))
             last_begin = None
         elif line.startswith("RESTART "):
@@ -189,8 +189,9 @@ def parse_worker_output(text, variant, res, keep_hashes=False):
             idx = int(f[1])
             if had_viol:
                 # an earlier run of this process ended in a violation: its damage may be what crashed this one.
-                # Do not count it; the run is repeated in a fresh process.
-                return None, idx
+                # Do not count it; the run is repeated in a fresh process - unless it is the very run whose violation
+                # was just recorded (the crash happened while that run was being torn down): then the next one.
+                return None, (idx + 1 if idx == last_viol_idx else idx)
             sig, step, opn, prop, ctx = f[2], int(f[3]), f[4], f[5], (f[6] if len(f) > 6 else "-")
             where = f[7] if len(f) > 7 else "?"
             res.crashes.append(dict(variant=variant, index=idx, key=f"{prop}/crash/{sig}/{opn}/{ctx}",
